@@ -153,6 +153,13 @@ def insertSorted (x : Nat) : List Nat → List Nat
 
 def sortNat (l : List Nat) : List Nat := l.foldr insertSorted []
 
+def insertSortedStr (x : String) : List String → List String
+  | [] => [x]
+  | y :: r => if x < y then x :: y :: r else y :: insertSortedStr x r
+
+/-- Go `sort.Strings` (byte order; the strings are ASCII) -/
+def sortStr (l : List String) : List String := l.foldr insertSortedStr []
+
 /-- ids whose session is still stored, split into (handler may legitimately still hold it, stuck) -/
 def liveIds (st : St) : List Nat × List Nat :=
   let ids := sortNat (st.infos.map (·.id))
@@ -239,7 +246,7 @@ def wakeAndAnswer (st : St) (id : Nat) (cm : CMsg) : Option St :=
 
 /-! ### the step function -/
 
-def step (st : St) (tok : List String) (impl : String) : St × Verdict :=
+def stepCore (st : St) (tok : List String) (impl : String) : St × Verdict :=
   match tok with
   | ["reset"] => ({}, verdictOf "-" impl)
   | ["classify", a, l] =>
@@ -377,14 +384,23 @@ def step (st : St) (tok : List String) (impl : String) : St × Verdict :=
     match id.toNat? with
     | some id =>
       let sid := sidOf id
+      -- property on the implementation's own answer (C20.reportOk): nothing but the reported session's own
+      -- score list changed, and a session that is unknown or not analysed has no score list
+      let prop : Option Bool := match impl.splitOn "#" with
+        | [stt, _, sc, fr] => some (C20.reportOk (stt = "1") (sc ≠ "-") (fr = "same"))
+        | _ => none
       match aget st.C.sessions sid with
-      | none => (st.tryApp (.report sid (ok = "1")), verdictOf "unknown" impl)
+      | none => (st.tryApp (.report sid (ok = "1")), verdictOf "u#0,0#-#same" impl prop)
       | some s =>
         let st' := st.tryApp (.report sid (ok = "1"))
         let rec? := aget st'.C.analyzer.records s.key
-        let ms := s!"{b01 rec?.isSome}#{s.mode},{s.index}#{scoresStr (rec?.getD [])}"
-        (st', verdictOf ms impl)
+        let stt := if s.key.isEmpty then "0" else "1"
+        let ms := s!"{stt}#{s.mode},{s.index}#{scoresStr (rec?.getD [])}#same"
+        (st', verdictOf ms impl prop)
     | none => (st, .bad "report")
+  | ["adump"] =>
+    let ls := sortStr (st.C.analyzer.records.map (fun p => scoresStr p.2))
+    (st, verdictOf s!"{st.C.analyzer.records.length}:{"/".intercalate ls}" impl)
   | ["settle"] =>
     let ids := sortNat (st.infos.map (·.id))
     let st' := ids.foldl settleOne st
@@ -429,6 +445,18 @@ def step (st : St) (tok : List String) (impl : String) : St × Verdict :=
         (st, verdictOf ms impl (judge st id impl C20.fullOk))
     | none => (st, .bad "rangechk")
   | _ => (st, .bad "op")
+
+/-- "never a bogus instruction or a crash": a panic of the real code in ANY op (HandleReport,
+    HandleClient, the HandleVisitor goroutine, the analyzer, the classifier) fails the property;
+    the model still advances so that the trace stays aligned -/
+def step (st : St) (tok : List String) (impl : String) : St × Verdict :=
+  let (st', v) := stepCore st tok impl
+  if impl.startsWith "PANIC:" then
+    (st', match v with
+      | .diff m _ => .diff m (some false)
+      | .bad w => .bad w
+      | _ => .diff "no-panic" (some false))
+  else (st', v)
 
 end Nat'
 
